@@ -549,6 +549,27 @@ def renderTree (cfg : Cfg) (d : Deco) (width : Nat) (tree : RNode) : Except Err 
   andThen s.startBlock fun s1 =>
   (s1.addLines ((foot.flatMap (fmtLinkLine cfg (d.annOf Ann.dflt) s1.width)).map RLine.text)).intoLines
 
+mutual
+/-- the cells of every row of every table lie inside the table's `ncols` columns (counting a cell of span 0 as one
+    column) — what `RenderTable::new` establishes when it computes `num_columns` as the widest row -/
+def tableOk : RNode → Bool
+  | .table _ rows n => rowsOk n rows
+  | .box _ _ kids => tableOkL kids
+  | .cell _ _ kids => tableOkL kids
+  | _ => true
+def tableOkL : List RNode → Bool
+  | [] => true
+  | n :: ns => tableOk n && tableOkL ns
+def rowsOk (n : Nat) : List RNode → Bool
+  | [] => true
+  | .row _ cells :: rs => cellsOk n 0 cells && rowsOk n rs
+  | _ :: rs => rowsOk n rs
+def cellsOk (n used : Nat) : List RNode → Bool
+  | [] => true
+  | .cell _ span kids :: cs => decide (used + max span 1 ≤ n) && tableOkL kids && cellsOk n (used + max span 1) cs
+  | _ :: cs => cellsOk n used cs
+end
+
 /-- dom_to_stylesheet: text of every <style> element, in document order -/
 def styleTexts : Nat → Node → List (List Ch)
   | 0, _ => []
@@ -601,6 +622,9 @@ def renderDom (cfg : Cfg) (d : Deco) (width : Nat) (useDoc : Bool) (agentCss use
   | none => .panic "computed_style"
   | some none => .panic "Fail: no render tree"
   | some (some tree) =>
+    -- the hypothesis of the totality theorem (`C01.render_total`), evaluated on every tree `build` produces: a tree
+    -- that violated it would show up as a disagreement with the implementation
+    if !tableOk tree then .panic "tableOk: a cell lies outside its table's columns" else
     match renderTree cfg d width tree with
     | .ok ls => .lines ls
     | .error .tooNarrow => .narrow
